@@ -104,7 +104,10 @@ class MotionGen(object):
         # "tiny": extrusion quanta of 1e-5 mm and relative round trips (C07)
         self.tiny = foc == "tiny"
         self.tinyE = Decimal(0)
-        self.useInch = ((foc == "frames" and rng.random() < 0.7) or rng.random() < 0.15) \
+        self.useInch = ((foc == "frames" and rng.random() < 0.7) or rng.random() < 0.15
+                        or (foc == "extrusion" and rng.random() < 0.25)) and not self.tiny
+        # relative extruder addressing from the start of the program (M83)
+        self.useM83 = foc in ("extrusion", "frames", "motion") and rng.random() < 0.2 \
             and not self.tiny
         self.useRel = (foc == "frames" and rng.random() < 0.7) or rng.random() < 0.2 or self.tiny
         self.useG92 = (foc == "frames" and rng.random() < 0.6) or rng.random() < 0.15
@@ -318,10 +321,10 @@ class MotionGen(object):
         self.steps.append(("g", text, extra or {}))
 
     # ------------------------------------------------------------------ actions
-    def act_move(self):
+    def act_move(self, want=None, travel=False):
         rng = self.rng
         gh = self.ghost
-        want = rng.choice(["in", "in", "out", "out", "out", "border"])
+        want = want or rng.choice(["in", "in", "out", "out", "out", "border"])
         if self.cleanMode in ("avoid", "noregions"):
             want = "out"
         for _ in range(30):
@@ -359,7 +362,9 @@ class MotionGen(object):
             return
         code = rng.choice(["G1", "G1", "G0"])
         # extrusion on the move (only when the file is not retracted, to stay in C04/C05 scope)
-        if gh.ret == 0 and gh.eabs and rng.random() < 0.55:
+        if travel:
+            pass
+        elif gh.ret == 0 and rng.random() < 0.55:
             wtxt, actual = self.eword(rng.choice([5, 10, 25, 40, 75]))
             if wtxt:
                 words.append(wtxt)
@@ -389,11 +394,12 @@ class MotionGen(object):
     def act_retract_cycle(self):
         rng = self.rng
         gh = self.ghost
-        if self.retKind == "n" or not gh.eabs:
+        if self.retKind == "n":
             return
         if gh.ret == 0:
             if self.retKind == "f":
-                self.emit(rng.choice(["G10", "G10", "G10 S1"]))
+                self.emit(rng.choice(["G10", "G10", "G10 S1", "G10S1", "G10  S1",
+                                      "G10 S0"]))
                 gh.ret = -1
             else:
                 wtxt, actual = self.eword(-self.retAmount)
@@ -414,6 +420,31 @@ class MotionGen(object):
             gh.ret = 0
             feed = (" F" + str(rng.choice([1800, 2400]))) if rng.random() < 0.5 else ""
             self.emit("G1 " + wtxt + feed)
+
+    def act_owed(self):
+        """
+        The "owed recovery" path end to end: retract outside, travel into a region, recover there
+        (swallowed), leave by a travel move, retract again outside (dropped: the filament is still
+        retracted), travel, recover, print.  Every retraction style and mode combination the
+        program is in at that point is carried through it.
+        """
+        gh = self.ghost
+        if self.retKind == "n" or gh.ret != 0 or not self.regions or self.cleanMode:
+            return
+        if self.excluded(gh.p["X"], gh.p["Y"]):
+            self.act_move("out", travel=True)
+        self.act_retract_cycle()
+        if gh.ret == 0:
+            return
+        self.act_move("in", travel=True)
+        self.act_retract_cycle()
+        self.act_move("out", travel=True)
+        for _ in range(self.rng.choice([1, 1, 2])):
+            self.act_retract_cycle()
+            self.act_move("out", travel=True)
+        if gh.ret != 0:
+            self.act_retract_cycle()
+        self.act_move("out")
 
     def act_g92e(self):
         gh = self.ghost
@@ -467,6 +498,13 @@ class MotionGen(object):
                 gh.eabs = False
         elif cmd == "G20":
             gh.inch = True
+            if gh.eabs and gh.e % G_PER_TENTH_IN != 0 and rng.random() < 0.7:
+                # put the logical E on a 0.1 in multiple so that E words stay on the grid
+                self.emit(cmd)
+                tenths = rng.choice([0, 10, 25])
+                gh.e = tenths * G_PER_TENTH_IN
+                self.emit("G92 E" + fmt_in(tenths))
+                return
         elif cmd == "G21":
             gh.inch = False
         self.emit(cmd)
@@ -646,12 +684,31 @@ class MotionGen(object):
         if self.cfg["g90e"]:
             gh.eabs = True
 
+    def act_zfine(self):
+        """
+        A Z adjustment of a few micrometres (fine layer-height tuning, vase-mode increments).
+        The ghost's grid value is not updated: Z does
+        not steer the generator, the contract computes with the real words.
+        """
+        rng = self.rng
+        gh = self.ghost
+        if gh.off["Z"] or (gh.p["Z"] <= 0) or gh.inch:
+            # (one step of the fourth decimal of an inch is 25.4 native units: not on the trace
+            # lattice)
+            return
+        delta = Decimal(rng.choice(["0.003", "0.004", "0.005", "-0.004", "0.0045"]))
+        base = Decimal(fmt_mm(gh.p["Z"])) if gh.abs else Decimal(0)
+        self.emit("G1 Z" + format(base + delta, "f"))
+
     def act_deferred(self):
         rng = self.rng
         codes = list(self.cfg["xg"].keys()) or ["M204"]
         code = rng.choice(codes)
         letters = rng.sample(["P", "S", "T", "R", "K"], rng.randint(1, 3))
         words = [l + str(rng.choice([0, 0, 1, 5, 50, 500, 1000, 1250, "0.5"])) for l in letters]
+        if rng.random() < 0.3:
+            # sub-coded variants (M204.1, G4.2 ...) belong to the code the mode is configured for
+            code += "." + rng.choice(["1", "2", "3", "0"])
         self.emit(code + " " + " ".join(words))
 
     def act_other(self):
@@ -745,6 +802,9 @@ class MotionGen(object):
         self.ghost.homed = True
         self.emit(rng.choice(["G1 Z0.2 F3000", "G1 Z0.3", "G0 Z1"]))
         self.ghost.p["Z"] = {"G1 Z0.2 F3000": 10, "G1 Z0.3": 15, "G0 Z1": 50}[self.steps[-1][1]]
+        if self.useM83:
+            self.emit("M83")
+            self.ghost.eabs = False
         if self.cleanMode == "disabled":
             self.steps.append(("at", "ExcludeRegion", "disable", False))
             self.useAt = True
@@ -767,11 +827,13 @@ class MotionGen(object):
             "offon": 1.0 if (self.useAt and not self.cleanMode) else 0.0,
             "shadow": 0.0 if self.cleanMode in ("noregions", "disabled") else 0.8,
             "cliparc": 1.2 if self.useArcs else 0.0,
+            "zfine": 0.5, "owed": 0.5 if self.retKind != "n" else 0.0,
             "roundtrip": 0.0 if self.cleanMode else (1.5 if self.tiny else
                                                      (0.3 if self.useRel else 0.0)),
         }
         if self.focus == "extrusion":
             weights["retract"] = 6
+            weights["owed"] = 1.5
         pending = nreg - early
         names = list(weights.keys())
         for _ in range(self.length):
@@ -798,6 +860,10 @@ class MotionGen(object):
                 self.act_rel_roundtrip()
             elif name == "shadow":
                 self.act_shadow()
+            elif name == "zfine":
+                self.act_zfine()
+            elif name == "owed":
+                self.act_owed()
             elif name == "cliparc":
                 self.act_clip_arc()
             elif name == "deferred":
